@@ -2,6 +2,8 @@ package harness
 
 import (
 	"encoding/json"
+	"fmt"
+	"os"
 	"testing"
 
 	"pgregory.net/rapid"
@@ -40,6 +42,12 @@ func (dp decProp) body(o decOpts, st *propStats) func(t *rapid.T) {
 				c.PreCap = -1
 			}
 		}
+		if o.vehicle == "dbuf" && o.hostile > 0 && rapid.IntRange(0, 9).Draw(t, "direct") == 0 {
+			// no Init: the configuration fields are set by hand
+			c.Direct = true
+			c.Cfg.WindowSize = rapid.SampledFrom([]int{0, 0, 1, 2, 8}).Draw(t, "directWindow")
+			c.Cfg.BufferSize = c.Cfg.WindowSize + rapid.IntRange(1, 64).Draw(t, "directBufExtra")
+		}
 		x, err := newDecExec(c)
 		if err != nil {
 			st.class("config-rejected")
@@ -66,6 +74,9 @@ func (dp decProp) judge(t *rapid.T, st *propStats, sub string, x *decExec) {
 		why := sub
 		if len(x.findings) > 0 {
 			why += ":" + x.findings[0].prop
+			if os.Getenv("VERIF_DEBUG_ABORT") != "" {
+				fmt.Fprintf(os.Stderr, "ABORT %s %s %+v direct=%v precap=%d\n", x.findings[0].prop, x.findings[0].msg, x.c.Cfg, x.c.Direct, x.c.PreCap)
+			}
 		}
 		st.abort(why)
 		return
